@@ -15,6 +15,6 @@ def run(ctx):
     ctx.negative_control(_world.MC, "World_C12_neg_seam.cfg", "C12_PlainIsSeam")
     n = 300 if q else 3000
     for kinds, label in ((("space",), "continuous worlds"), (("grid", "line", "grid2d"), "grid worlds")):
-        runs = _world.random_runs(ctx, n, kinds=kinds, mods="clean", length=70, weights=W, n_models=1, n_ids=4)
+        runs = _world.random_runs(ctx, n, kinds=kinds, mods="clean", length=70, weights=W, n_models=2, n_ids=4)
         _world.validate_runs(ctx, runs, f"random populations (coincident agents, agents on faces, moved/removed agents) and queries, {label}",
                              expect_clean=False)
